@@ -96,6 +96,10 @@ def map_tasks(module, tasks, mode="jit", nproc=None, extra_env=None, warm_first=
         w = Worker(module, mode, extra_env)
         try:
             results[0] = w.call(tasks[0])
+        except WorkerError as e:
+            # the implementation took the interpreter down (e.g. heap corruption after an out-of-bounds write
+            # in compiled code): a verdict about the tree under test, not a machinery failure
+            results[0] = {"ok": False, "crash": True, "error": "worker process died while executing the task: %s" % str(e)[-600:]}
         finally:
             w.close()
         start = 1
@@ -115,7 +119,12 @@ def map_tasks(module, tasks, mode="jit", nproc=None, extra_env=None, warm_first=
                     i = next(it, None)
                 if i is None:
                     break
-                results[i] = w.call(tasks[i])
+                try:
+                    results[i] = w.call(tasks[i])
+                except WorkerError as e:
+                    results[i] = {"ok": False, "crash": True, "error": "worker process died while executing the task: %s" % str(e)[-600:]}
+                    w.close()
+                    w = Worker(module, mode, extra_env)
         except Exception as e:
             errors.append(e)
         finally:
